@@ -1,6 +1,7 @@
 use std::collections::HashMap;
 
 use crate::graph::{ Atom, JoinPool };
+use crate::feature::{ AtomKind, Configuration };
 use super::{ Follower, Error };
 
 /// Performans a depth-first traversal of `graph`.
@@ -107,6 +108,8 @@ fn walk_root<F: Follower>(
                     if out.tid == sid {
                         if out_index % 2 == 0 {
                             child.kind.invert_configuration()
+                        } else {
+                            invert_without_hydrogen(&mut child.kind)
                         }
 
                         if back.is_none() {
@@ -143,6 +146,29 @@ fn walk_root<F: Follower>(
     }
 
     Ok(())
+}
+
+// Moving the entry bond from an odd index to the front is an odd
+// permutation of the neighbors when no virtual hydrogen precedes them.
+fn invert_without_hydrogen(kind: &mut AtomKind) {
+    if let AtomKind::Bracket { hcount, configuration, .. } = kind {
+        let hydrogens = match hcount {
+            Some(hcount) => !hcount.is_zero(),
+            None => false
+        };
+
+        if hydrogens {
+            return
+        }
+
+        let inverted = match configuration {
+            Some(Configuration::TH1) => Configuration::TH2,
+            Some(Configuration::TH2) => Configuration::TH1,
+            _ => return
+        };
+
+        configuration.replace(inverted);
+    }
 }
 
 #[cfg(test)]
